@@ -364,11 +364,11 @@ var tmpl = template.Must(template.New("type1").Funcs(template.FuncMap{
 	"E": writeEncoding,
 	"L": func(s string) string {
 		// keep header comments on a single line
-		return strings.NewReplacer("\n", " ", "\r", " ").Replace(s)
+		return strings.NewReplacer("\n", " ", "\r", " ", "\f", " ").Replace(s)
 	},
 }).Parse(`{{define "SectionA" -}}
 %!FontType1-1.1: {{.FontName}} {{.Version|L}}
-{{if not .CreationDate.IsZero}}%%CreationDate: {{.CreationDate.Format "2006-01-02 15:04:05 -0700 MST"}}
+{{if not .CreationDate.IsZero}}%%CreationDate: {{.CreationDate.Format "2006-01-02 15:04:05 -0700 MST"|L}}
 {{end -}}
 10 dict begin
 /FontInfo 11 dict dup begin
